@@ -1,7 +1,8 @@
-"""batt_life() under observation: scripted / numeric battery models behind logging callbacks, a
-temporary wrapper of System._solve that records every solver call of the run (phase, the battery
-Source's parameters at that moment, and the battery's Iout in a reference solve() of a deep copy),
-optional fault injection at the k-th probe / deplete / solve."""
+"""batt_life() under observation: scripted / numeric battery models behind logging callbacks (the observable steps of
+the run: probe, deplete), with the battery's reference current for every depletion obtained by the harness itself
+(solve() of a system rebuilt from the projected state, battery at the state the model returned last); a temporary
+wrapper of System._solve additionally records the solver calls between two callbacks (internal steps: phase and the
+battery Source's parameters at that moment); optional fault injection at the k-th probe / deplete / solver call."""
 import copy
 import warnings
 
@@ -74,7 +75,12 @@ def run_batt(s, battery, cutoff, pfunc, dfunc, cid, fail_at=None, ref=True, max_
             "src0": [cell(g[idx]._params["vo"]), cell(g[idx]._params["rs"])] if is_source else [],
             "src1": [], "solve_cases": []}
     ev = case["events"]
+    case["tail"] = []          # solver calls after the last callback (e.g. the one that raised)
     cnt = {"probe": 0, "deplete": 0, "solve": 0}
+    pending = []               # solver calls observed since the last callback (internal steps: 0, 1 or more per depletion)
+    last = {"ret": None}       # the battery state the model returned last = its present state
+    phnames = list(g.attrs["phases"].keys())
+    bname = g[idx]._params["name"] if is_source else None
 
     def boom(kind):
         cnt[kind] += 1
@@ -84,57 +90,68 @@ def run_batt(s, battery, cutoff, pfunc, dfunc, cid, fail_at=None, ref=True, max_
             raise ModelFailure("injected failure at %s #%d" % (kind, cnt[kind]))
 
     def P():
-        e = {"k": "probe", "raised": True, "ret": []}
+        e = {"k": "probe", "raised": True, "ret": [], "solves": []}
         ev.append(e)
         boom("probe")
         r = pfunc()
         e["ret"], e["raised"] = [cell(x) for x in r], False
+        last["ret"] = r
         return r
 
+    def reference(m):
+        """the battery's Iout in solve(phase of step m) of a system built from scratch from the projected state, with the
+        battery Source at the battery's PRESENT state (the state the model returned last) - computed by the harness
+        from the public callbacks alone, independent of how (and whether) the library calls its solver"""
+        phase = phnames[(m - 1) % len(phnames)] if phnames else ""
+        st = project(s)
+        for c in st["comps"]:
+            if c["name"] == bname:
+                c["pay"]["params"]["vo"] = {"k": "c", "v": cell(last["ret"][1])}
+                c["pay"]["params"]["rs"] = {"k": "c", "v": cell(last["ret"][2])}
+        c2 = rebuild(st)
+        with warnings.catch_warnings():
+            warnings.simplefilter("ignore")
+            df = c2.solve(vtol=1e-5, itol=1e-6, phase=phase)
+        rows = df[df["Component"] == bname]
+        return rows["Iout (A)"].values[0]
+
     def D(dt, i):
-        e = {"k": "deplete", "raised": True, "dt": cell(dt), "i": cell(i), "ret": []}
+        e = {"k": "deplete", "raised": True, "dt": cell(dt), "i": cell(i), "ret": [], "solves": list(pending),
+             "has_ref": False, "iref": cell(0.0)}
+        del pending[:]
         ev.append(e)
         if cnt["deplete"] >= max_steps:
             raise ModelFailure("step budget exhausted")
         boom("deplete")
+        if ref and is_source and last["ret"] is not None and (cnt["deplete"] <= 3 or cnt["deplete"] % ref_every == 0):
+            busy["ref"] = True
+            try:
+                e["iref"], e["has_ref"] = cell(reference(cnt["deplete"])), True
+            except Exception:
+                pass
+            finally:
+                busy["ref"] = False
         r = dfunc(dt, i)
         e["ret"], e["raised"] = [cell(x) for x in r], False
+        last["ret"] = r
         return r
 
-    orig_solve = System._solve
+    orig_solve = getattr(System, "_solve", None)
     busy = {"ref": False}
 
     def tapped(self, *a, **kw):
         if busy["ref"] or self is not s:
             return orig_solve(self, *a, **kw)
         phase = kw.get("phase", a[4] if len(a) > 4 else "")
-        e = {"k": "solve", "raised": True, "phase": phase, "vo": cell(g[idx]._params["vo"]), "rs": cell(g[idx]._params["rs"]),
-             "has_ref": False, "iref": cell(0.0)}
-        ev.append(e)
+        e = {"k": "solve", "raised": True, "phase": phase, "vo": cell(s._g[idx]._params["vo"]), "rs": cell(s._g[idx]._params["rs"])}
+        pending.append(e)
         boom("solve")
-        if ref and (cnt["solve"] <= 3 or cnt["solve"] % ref_every == 0):
-            busy["ref"] = True
-            try:
-                # a system built from scratch from the projected state (the battery Source carries the values the
-                # loop has just written): independent of anything the live object may have cached
-                try:
-                    c2 = rebuild(project(s))
-                except Exception:
-                    c2 = copy.deepcopy(s)
-                with warnings.catch_warnings():
-                    warnings.simplefilter("ignore")
-                    df = c2.solve(vtol=1e-5, itol=1e-6, phase=phase)
-                rows = df[df["Component"] == g[idx]._params["name"]]
-                e["iref"], e["has_ref"] = cell(rows["Iout (A)"].values[0]), True
-            except Exception:
-                pass
-            finally:
-                busy["ref"] = False
         r = orig_solve(self, *a, **kw)
         e["raised"] = False
         return r
 
-    System._solve = tapped
+    if orig_solve is not None:       # (observation of the internal solver calls is optional: the clauses are about the callbacks)
+        System._solve = tapped
     try:
         with warnings.catch_warnings():
             warnings.simplefilter("ignore")
@@ -145,7 +162,9 @@ def run_batt(s, battery, cutoff, pfunc, dfunc, cid, fail_at=None, ref=True, max_
             raise
         case["outcome"], case["exc"] = "exc", type(e).__name__
     finally:
-        System._solve = orig_solve
+        if orig_solve is not None:
+            System._solve = orig_solve
+    case["tail"] = list(pending)
     if is_source:
-        case["src1"] = [cell(g[idx]._params["vo"]), cell(g[idx]._params["rs"])]
+        case["src1"] = [cell(s._g[idx]._params["vo"]), cell(s._g[idx]._params["rs"])]
     return case
